@@ -145,6 +145,34 @@ reg("C18", "fault_enumeration",
     "is killed by abort and the reopened content must equal exactly the state for the completed commits.",
     "Process death, not power loss (OS page cache survives). Batches are sized to fit the 10% headroom the resize policy leaves (assumption recorded in the evidence).")
 
+reg("C05", "exploration",
+    "differential oracle against an independent graph-theoretic reference (own siphash, edge definitions, cycle decider, solver): exhaustive tuples in tiny graphs, solver cycles + near misses in larger ones; hang/panic monitors",
+    "For all five Cuckoo variants: every ascending 8-tuple of 16-edge graphs (12 870 per header, 120 headers per variant; 10.5M-tuple graphs in "
+    "thorough) is judged by PoWContext::verify and by a reference decider written from the graph definitions (exact count, ascending, in "
+    "range, every half-edge exactly one junction partner, one component); larger graphs (edge bits 8-16, proof sizes 8 and 42): reference "
+    "solver cycles, ~130 mutations each, unions of cycles (disjoint, figure-eight, theta), wrong-length cycles, open paths, bad-direction "
+    "cycles, out-of-range aliases; variant selection by chain type/height/edge bits; to_difficulty vs own formula over independently packed "
+    "nonces; Proof serialisation bit-exact with non-zero padding refused. Every verify call is under a panic and a hang monitor.",
+    "Graphs of edge_bits 29/31+ cannot be solved here; the verifier code is the same, only masks differ.")
+
+reg("C09", "fault_enumeration",
+    "crash-point enumeration at cfg-guarded hooks (abort in a sacrificial process at every durable step) + reopen / validate / re-delivery differential against an uninterrupted twin",
+    "8 scenarios (plain extension, extension spending the oldest output, fork block, reorg with spends, header-only reorg, compaction, compaction "
+    "then block, spend of a pre-horizon output on a compacted node) on fixed worlds; count mode lists every crash point reached (328 per "
+    "world: before/after each file truncate, append+fsync, temp-file rename, file replace, LMDB commit) and EVERY one is crashed; a fresh "
+    "process must open the chain, find the head on the previously accepted chain, pass validate(false), equal the replayed reference state, "
+    "converge after re-delivery to the twin's head and state, accept a later block. 372 crash points that fail are recorded known findings "
+    "(4 root causes, see DESIGN.md); any other failing point, or a listed point failing differently, is a violation.",
+    "Process death at the hook (abort, no destructors, LMDB env not closed); the OS page cache survives: torn writes / power loss are out of reach. Worlds are fixed (not seed-derived) so that recorded findings are reproducible bit for bit.")
+
+reg("C20", "exploration",
+    "determinism and algebraic round-trip oracles (own mod-n scalar reference) over seeds x paths x amounts x switch modes x proof builders x view keys",
+    "Key derivation and commitments agree across calls and across keychains from the same seed and are pairwise distinct otherwise; range "
+    "proofs from both builders verify and rewind to exactly (amount, path, mode) with the same seed or a matching view key and to nothing with "
+    "another seed; split / sum / add-subtract identities against an independent 256-bit mod-n adder; builder transactions, rewards and "
+    "blocks validate and their kernel signatures verify; aggsig sign/verify round trips and refusals.",
+    "secp256k1-zkp internals are the trusted base. One recorded known finding (view keys cannot rewind Regular-switch outputs: unimplemented upstream).")
+
 NOT_READY_REASON = "check under construction in this session (design in DESIGN.md section 3); not yet claimed"
 
 def main():
